@@ -57,7 +57,7 @@ def alpha(x):
     if isinstance(x, bool):
         return {"t": "ambiguous"}
     if isinstance(x, int):
-        return {"t": "int", "n": x} if abs(x) < 10 ** 6 else {"t": "other", "w": "bigint"}
+        return {"t": "int", "n": int(x)} if abs(x) < 10 ** 6 else {"t": "other", "w": "bigint"}
     if isinstance(x, str):
         if x.isascii():
             if x.isdigit():
@@ -111,6 +111,14 @@ def apply_stack(bib, value, fs, inplace, history=False):
     if isinstance(value, str) and value:
         blocks.append(M.String(value, "macro with that name"))
     nblocks = len(blocks)
+    if value is not ABSENT and not history and (len(fs) + (len(value) if isinstance(value, str) else 0)) % 2:
+        # the month reached the entry late and through the field LIST (built without it, looked at, then inserted):
+        # a middleware finds the field that is there now
+        e0 = blocks[0]
+        mf = next(f for f in e0.fields if f.key == "month")
+        e0.fields = [f for f in e0.fields if f.key != "month"]
+        _ = ("month" in e0, e0.fields_dict, e0.get("month"))
+        e0.fields.insert(1, mf)
     lib = bib.Library(blocks)
     inst = {}
 
@@ -191,11 +199,25 @@ def sig_of(m):
     return None
 
 
+import enum  # noqa: E402
+
+
+class _IE(enum.IntEnum):
+    """an int month given as a member of an IntEnum (like calendar.MARCH): an int like any other"""
+    MAR = 3
+    DEC = 12
+    THIRTEEN = 13
+
+
+class _SubInt(int):
+    pass
+
+
 def rand_values(rnd, n):
     digits = "0123456789²³¹٣٤۵७१２３４⑤"
     letters = "janfebmrchpilyugstovdJANFEBMRCHPILYUGSTOVDıİſK \t{}\"#-+."
     lookalikes = ["ſep", "ſEPTEMBER", "auguſt", "auguﬆ", "AUGUﬅ", "ſeptember", "ǆ", "Ｊａｎ", "jän", "İan", "ıan", " 3", "3 ", "+3", "1_2", "\t12\n", "marzo", "Januar",
-                  "Sept", "decade", "June 2020", "jan.", "May ", "0x3", "3.0", "٣", "１２"]
+                  "Sept", "decade", "June 2020", "jan.", "May ", "0x3", "3.0", "٣", "１２", "jan\n", "March\n", "DECEMBER\n", "\njan", "3\n", "jan\r"]
     vals = []
     for i in range(n):
         r = rnd.random()
@@ -209,7 +231,7 @@ def rand_values(rnd, n):
             m = rnd.choice(FULL + ABBR)
             vals.append("".join(c.upper() if rnd.random() < 0.5 else c.lower() for c in m))
         elif r < 0.6:
-            vals.append(rnd.choice([None, 1.5, True, False, ["jan"], ("jan",), {"a": 1}, b"jan", 0, -3, 13, 10 ** 30, 5, 12, float("nan"), 10 ** 4400, -(10 ** 5000)]))
+            vals.append(rnd.choice([None, 1.5, True, False, ["jan"], ("jan",), {"a": 1}, b"jan", 0, -3, 13, 10 ** 30, 5, 12, float("nan"), 10 ** 4400, -(10 ** 5000), _IE(3), _IE(12), _IE(13), _SubInt(7)]))
         elif r < 0.7:
             vals.append(rnd.randint(-5, 20))
         elif r < 0.78:
